@@ -398,12 +398,61 @@ func calHandler(args []string) (string, []string) {
 	return "bad-request", nil
 }
 
+// every how many 65536-day blocks the block is walked a second time, DESCENDING, to expose results
+// that depend on the calls made before (thorough tier: every block)
+func descEvery() int {
+	if v, err := strconv.Atoi(os.Getenv("ORACLE_DESC_EVERY")); err == nil && v > 0 {
+		return v
+	}
+	return 8
+}
+
 func calJdRange(c *calCfg, list bool, lo, hi int) (string, []string) {
 	ct := c.ct
 	h := fnvInit
 	var sb strings.Builder
 	var ps propSink
 	var cur *lib.Date
+	type ymd struct{ y, m, d int }
+	second := !list && hi-lo <= 1<<16 && ((lo>>16)%descEvery() == 0)
+	var asc []ymd
+	if second {
+		asc = make([]ymd, hi-lo)
+	}
+	// the property clauses on one day, given what JdTo returned for it
+	checkDay := func(jd int, d *lib.Date, how string) *lib.Date {
+		// C01 (day number -> date -> day number); ToJd must leave the date it is given alone
+		dy, dm, dd := d.Year, d.Month, d.Day
+		back := ct.ToJd(d)
+		if d.Year != dy || d.Month != dm || d.Day != dd {
+			ps.add("C01", "cfg=%s jd=%d date=%d/%d/%d%s: ToJd changed the date it was given to %s (the same date object now has day number %d)", c.name, jd, dy, dm, dd, how, dateStr(d), ct.ToJd(d))
+			d = lib.NewDate(dy, dm, dd)
+		}
+		if back != jd {
+			ps.add("C01", "cfg=%s jd=%d date=%s%s ToJd(date)=%d", c.name, jd, dateStr(d), how, back)
+		}
+		// C02 (well-formed, successor)
+		ml := int(ct.GetMonthLen(d.Year, d.Month))
+		if d.Month < 1 || d.Month > 12 || d.Day < 1 || int(d.Day) > ml || (c.skipYear0 && d.Year == 0) {
+			ps.add("C02", "cfg=%s jd=%d date=%s%s ill-formed (month length %d)", c.name, jd, dateStr(d), how, ml)
+		}
+		nx := ct.JdTo(jd + 1)
+		sy, sm, sd := libSucc(c, d)
+		if nx.Year != sy || int(nx.Month) != sm || int(nx.Day) != sd {
+			ps.add("C02", "cfg=%s jd=%d date=%s%s next=%s expected-successor=%d/%d/%d", c.name, jd, dateStr(d), how, dateStr(nx), sy, sm, sd)
+		}
+		// C03 (published rule counted from the anchor)
+		ry, rm, rd := c.rule.date(jd)
+		if c.name == "hij-t" {
+			if ty, tm, td, ok := hijTableDate(jd); ok {
+				ry, rm, rd = ty, tm, td
+			}
+		}
+		if d.Year != ry || int(d.Month) != rm || int(d.Day) != rd {
+			ps.add("C03", "cfg=%s jd=%d date=%s%s rule-date=%d/%d/%d", c.name, jd, dateStr(d), how, ry, rm, rd)
+		}
+		return nx
+	}
 	for jd := lo; jd < hi; jd++ {
 		func() {
 			defer func() {
@@ -426,32 +475,34 @@ func calJdRange(c *calCfg, list bool, lo, hi int) (string, []string) {
 			if list {
 				fmt.Fprintf(&sb, "%d/%d/%d;", d.Year, d.Month, d.Day)
 			}
-			// C01 (day number -> date -> day number)
-			if back := ct.ToJd(d); back != jd {
-				ps.add("C01", "cfg=%s jd=%d date=%s ToJd(date)=%d", c.name, jd, dateStr(d), back)
+			if second {
+				asc[jd-lo] = ymd{d.Year, int(d.Month), int(d.Day)}
 			}
-			// C02 (well-formed, successor)
-			ml := int(ct.GetMonthLen(d.Year, d.Month))
-			if d.Month < 1 || d.Month > 12 || d.Day < 1 || int(d.Day) > ml || (c.skipYear0 && d.Year == 0) {
-				ps.add("C02", "cfg=%s jd=%d date=%s ill-formed (month length %d)", c.name, jd, dateStr(d), ml)
-			}
-			nx := ct.JdTo(jd + 1)
-			sy, sm, sd := libSucc(c, d)
-			if nx.Year != sy || int(nx.Month) != sm || int(nx.Day) != sd {
-				ps.add("C02", "cfg=%s jd=%d date=%s next=%s expected-successor=%d/%d/%d", c.name, jd, dateStr(d), dateStr(nx), sy, sm, sd)
-			}
-			// C03 (published rule counted from the anchor)
-			ry, rm, rd := c.rule.date(jd)
-			if c.name == "hij-t" {
-				if ty, tm, td, ok := hijTableDate(jd); ok {
-					ry, rm, rd = ty, tm, td
-				}
-			}
-			if d.Year != ry || int(d.Month) != rm || int(d.Day) != rd {
-				ps.add("C03", "cfg=%s jd=%d date=%s rule-date=%d/%d/%d", c.name, jd, dateStr(d), ry, rm, rd)
-			}
-			cur = nx
+			cur = checkDay(jd, d, "")
 		}()
+	}
+	if second {
+		// the same days again, last first: every answer must be the one given before
+		for jd := hi - 1; jd >= lo; jd-- {
+			func() {
+				defer func() {
+					if r := recover(); r != nil {
+						for _, p := range []string{"C01", "C02", "C03"} {
+							ps.add(p, "cfg=%s jd=%d panic when asked after jd+1: %v", c.name, jd, r)
+						}
+					}
+				}()
+				d := ct.JdTo(jd)
+				a := asc[jd-lo]
+				if d.Year != a.y || int(d.Month) != a.m || int(d.Day) != a.d {
+					how := fmt.Sprintf(" (asked right after day %d; asked after day %d the answer was %d/%d/%d)", jd+1, jd-1, a.y, a.m, a.d)
+					ct.JdTo(jd + 1)
+					d = ct.JdTo(jd)
+					checkDay(jd, d, how)
+					ct.JdTo(jd + 1)
+				}
+			}()
+		}
 	}
 	if list {
 		return sb.String(), ps.out()
@@ -505,6 +556,9 @@ func calYmRange(c *calCfg, list bool, ylo, yhi int) (string, []string) {
 				for d := 1; d <= n; d++ {
 					date := lib.NewDate(y, uint8(m), uint8(d))
 					jd := ct.ToJd(date)
+					if date.Year != y || int(date.Month) != m || int(date.Day) != d {
+						ps.add("C01", "cfg=%s year=%d month=%d day=%d: ToJd changed the date it was given to %s (the same date object now has day number %d)", c.name, y, m, d, dateStr(date), ct.ToJd(date))
+					}
 					h = mix(h, jd)
 					if d == 1 {
 						j1 = jd
